@@ -1,6 +1,6 @@
 (* C15 — step-size control: rejected steps shrink the step and keep the point (loop level and
    controller level). *)
-From Verif Require Import Loop LoopInst LoopProofs LoopProofs2 LoopTop.
+From Verif Require Import Loop LoopInst LoopProofs LoopProofs2 LoopTop StepCtl CtlProofs.
 From Coq Require Import Lqa.
 
 Section C15.
@@ -72,3 +72,40 @@ Print Assumptions C15_abort_at_lambda_max.
 Print Assumptions C15_reject_keeps_point.
 Print Assumptions C15_failed_trial.
 Print Assumptions C15_doubling_is_strict.
+
+(* ---------------- controller level: for every Newton stream, PI output and deadline pattern ---------------- *)
+Section C15_controllers.
+  Variable prm : cparams.
+  Variable lamb : Q.
+  Variable res0 : Q.
+  Variable pi_out : Q -> Q.
+  Variable passed : nat -> bool.
+  Hypothesis lamb_pos : 0 < lamb.
+  Notation ctl_step := (ctl_step prm lamb res0 pi_out passed).
+
+  (* exact control accepts only an iterate whose implicit-Euler residual norm is <= newton_tol *)
+  Theorem C15_exact_accepts_only_converged : forall stream id l,
+    ctl_step CExact stream = CAns id l true ->
+    l == (1 # 2) * lamb /\ exists s, In s stream /\ ns_id s = id /\ ns_res s <= cp_newton_tol prm.
+  Proof. exact (exact_accepts_only_converged prm lamb res0 pi_out passed). Qed.
+
+  (* whatever a controller does not accept comes with a strictly larger lambda (lamb_inc > 1) *)
+  Theorem C15_rejected_increases_lambda : forall k stream id l,
+    1 < cp_lamb_inc prm -> ctl_step k stream = CAns id l false -> lamb < l.
+  Proof. exact (rejected_increases_lambda prm lamb res0 pi_out passed lamb_pos). Qed.
+
+  Theorem C15_lambda_stays_positive : forall k stream id l a,
+    0 < cp_lamb_min prm -> 0 < cp_lamb_init prm -> 0 < cp_lamb_inc prm ->
+    ctl_step k stream = CAns id l a -> 0 < l.
+  Proof. exact (lambda_stays_positive prm lamb res0 pi_out passed lamb_pos). Qed.
+
+  (* compute_step never accepts a point whose evaluation fails *)
+  Theorem C15_never_accepts_unevaluable_point : forall k stream eval_ok id l,
+    compute_step prm lamb res0 pi_out passed k stream eval_ok = CAns id l true -> eval_ok id = true.
+  Proof. exact (compute_step_never_accepts_bad_point prm lamb res0 pi_out passed). Qed.
+End C15_controllers.
+
+Print Assumptions C15_exact_accepts_only_converged.
+Print Assumptions C15_rejected_increases_lambda.
+Print Assumptions C15_lambda_stays_positive.
+Print Assumptions C15_never_accepts_unevaluable_point.
